@@ -22,7 +22,7 @@ EPS = 1e-3
 ORDERS = {
     'Periodogram': [dict(window='hann'), dict(window='rectangular')],
     'pcorrelogram': [dict(lag=6), dict(lag=4)],
-    'pburg': [dict(order=4), dict(order=2), dict(order=6), dict(order=1), dict(order=3)],
+    'pburg': [dict(order=4), dict(order=2), dict(order=6), dict(order=1), dict(order=3), dict(order=4, criteria='AIC'), dict(order=6, criteria='MDL')],
     'pyule': [dict(order=4), dict(order=2), dict(order=6), dict(order=1), dict(order=3)],
     'pcovar': [dict(order=4), dict(order=2), dict(order=6), dict(order=1), dict(order=3)],
     'pmodcovar': [dict(order=4), dict(order=2), dict(order=6), dict(order=1), dict(order=3)],
@@ -93,6 +93,10 @@ def in_domain(cls, N, NFFT, o, cplx):
     if cls in ('Periodogram', 'MultiTapering') and nf < N:
         return 'nfft_not_admissible'
     order = o.get('order', o.get('P', o.get('IP', o.get('M', 0))))
+    if o.get('criteria') and not cplx:
+        # the order-selection rule stops at the first stage that does not lower the criterion: a real sinusoid near fs/4 has a first
+        # reflection coefficient of ~0 and is legitimately given order 0; a complex exponential always has |k1| ~ 1
+        return 'greedy_order_selection_on_real_sinusoids'
     if cls == 'pminvar':
         if not (2 * order <= nf):
             return 'nfft_not_admissible'
